@@ -2,6 +2,7 @@
 // real library built from /repo's working tree and prints one result line per call.
 // Protocol: tools/PROTOCOL.md.  The Lean driver (lean/Main.lean) reads the same file.
 #include "common.h"
+#include "algops.h"
 
 struct State {
   std::unique_ptr<Model> m;
@@ -374,6 +375,7 @@ int main() {
           s.has_fext = true;
         }
       }
+      else if (cmd == "alg") { std::string r = algOp(t); size_t sp = r.find(' '); emit(s, "alg." + r.substr(0, sp), r.substr(sp + 1)); }
       else if (cmd == "poison") poisonModel(*s.m, t.nat());
       else if (cmd == "call") doCall(s, t);
       else emit(s, cmd, "bad-op");
